@@ -193,3 +193,55 @@ func VerifC12_ScannerParserAgree() {
 	}
 	zzverif.Assert(depth == 0, "the scanner ended the expression while the lexer still sees an open '('")
 }
+
+// VerifC12_IdentifierEnd: "the template scanner and the expression parser
+// agree on where each expression ends", for the short form @name.path: a
+// template "@a" followed by three (quick) / four arbitrary ASCII bytes, with
+// "a" an allowed top-level name.  The IDENTIFIER token the scanner cuts out is
+// a path the parser accepts — a name followed by ".name" / ".digits" segments,
+// none of them empty (so: no "..", no trailing period) — what follows it is
+// body text that starts exactly where the identifier ends, and the whole
+// template evaluates to the value of that path followed by that text.
+// cover: one-segment, two-segments, period-then-text, periods-then-name
+func VerifC12_IdentifierEnd() {
+	n := 3
+	if zzverif.Thorough() {
+		n = 4
+	}
+	tail := verifTemplate("tail", n, true)
+	zzverif.Assume(len(tail) == n)
+	tmpl := "@a" + tail
+	if isNameChar(rune(tail[0])) {
+		return // (the top-level name is longer than "a": not an allowed one, see VerifC12_Lossless)
+	}
+	toks := verifScanAll(tmpl, []string{"a"}, false)
+	zzverif.Assert(len(toks) >= 1 && toks[0].typ == IDENTIFIER, "an allowed top-level name after @ was not scanned as an identifier")
+	id := toks[0].text
+	zzverif.Assert(strings.HasPrefix(tmpl[1:], id), "the identifier is not the text after the @")
+	segs := strings.Split(id, ".")
+	for _, sg := range segs {
+		zzverif.Assert(len(sg) > 0, "the scanner cut out an identifier with an empty path segment, which the parser cannot read")
+		for k := 0; k < len(sg); k++ {
+			zzverif.Assert(isNameChar(rune(sg[k])), "the scanner cut out an identifier containing a character that is no name character")
+		}
+	}
+	if len(segs) == 1 {
+		zzverif.Cover("one-segment")
+	} else {
+		zzverif.Cover("two-segments")
+	}
+	rest := tmpl[1+len(id):]
+	if strings.HasPrefix(rest, ".") {
+		zzverif.Cover("period-then-text")
+		if strings.HasPrefix(rest, "..") && len(rest) > 2 && isNameChar(rune(rest[2])) {
+			zzverif.Cover("periods-then-name")
+		}
+	}
+	// the longest path the grammar admits was taken: what follows cannot continue it
+	if len(rest) > 0 {
+		zzverif.Assert(!isNameChar(rune(rest[0])), "the scanner ended an identifier in the middle of a name")
+		if rest[0] == '.' && len(rest) > 1 {
+			zzverif.Assert(!isNameChar(rune(rest[1])), "the scanner ended an identifier before a further path segment")
+		}
+	}
+}
